@@ -7,6 +7,7 @@ use std::panic::{self, AssertUnwindSafe};
 pub fn dispatch(f: &[String]) -> String {
     match f[0].as_str() {
         "prog" => prog(&f[1], &f[2]),
+        "dump" => dump(&f[1], &f[2]),
         "pratt" => pratt(&f[1]),
         "type" => types(f),
         "call" => call(&f[1], &f[2], &f[3]),
@@ -154,6 +155,16 @@ fn prog(flags: &str, src: &str) -> String {
     format!("(accepted {} {})", canon::ty(&t), run_code(&code))
 }
 
+/// the folded instruction trees of a program (hook `Code::verif_dump`), not executed
+fn dump(flags: &str, src: &str) -> String {
+    let interp = interpreter_for(flags);
+    let parsed = panic::catch_unwind(AssertUnwindSafe(|| Code::parse(&interp, src)));
+    match parsed {
+        Err(_) => format!("(parse-panic {})", take_panic()),
+        Ok(Err(e)) => format!("(rejected {})", canon::error(&e)),
+        Ok(Ok(c)) => format!("(dump {})", c.verif_dump()),
+    }
+}
 
 /// run PRATT_PARSER itself (no type checking) on an expression and print the grouping
 fn pratt(src: &str) -> String {
